@@ -4,7 +4,9 @@ Usage: seed_prompt.py <property id> <worktree dir> <out dir>
 The agent gets only the property's text, never anything else from /verif."""
 import json, sys
 pid, wt, out = sys.argv[1:4]
+focus = sys.argv[4] if len(sys.argv) > 4 else ""
 p = next(json.loads(l) for l in open('/verif/properties.jsonl') if json.loads(l)['id'] == pid)
+focus_text = ("\nPreferred flavour for this round: " + focus) if focus else ""
 print(f"""You are helping to evaluate a verification framework for the Python library cobrapy (opencobra/cobrapy, COBRApy 0.29.0: constraint-based metabolic modelling; LP solving through optlang/GLPK).
 
 You have your own scratch git worktree of the repository at {wt} (source under {wt}/src/cobra, tests under {wt}/tests). Work ONLY inside {wt} and {out}. Never touch /repo or /verif and do not read anything under /verif. There is no network.
@@ -24,7 +26,7 @@ YOUR TASK: produce TWO different, independent, realistic changes (bugs) to cobra
   (b) still imports/compiles and still passes the ENTIRE existing test suite (same pass/fail set as before the change - run it to confirm),
   (c) looks like a plausible regression a maintainer could introduce (a refactoring slip, a wrong boundary condition, an optimisation that forgets a case, a mishandled sign/zero/infinity/negative index, a stale cache, a missing undo, two sites that each look fine alone...),
   (d) needs something SPECIFIC to manifest - a particular value class (zero, negative, infinite, equal bounds, forced flux...), a multi-step sequence of operations, an unusual argument shape, a failure path, nesting, a particular order - rather than something any ordinary use would expose at once. Do not make a change that breaks the common path.
-The two changes should touch different mechanisms (different functions or different aspects of the property).
+The two changes should touch different mechanisms (different functions or different aspects of the property).{focus_text}
 
 For EACH change i in (1, 2) write into {out}/change<i>/ :
   - patch.diff : output of `git -C {wt} diff` for that change alone (relative to the pristine HEAD; it must apply with `git apply` on a pristine checkout). Reset the worktree (`git -C {wt} checkout -- .`) between the two changes so each patch is independent.
